@@ -57,14 +57,24 @@ from stdnum.util import clean, get_cc_module
 _country_modules = dict()
 
 
+# verification hooks (off unless STDNUM_VERIF is set, see /verif/DESIGN.md)
+_vh = None
+if __import__('os').environ.get('STDNUM_VERIF'):  # pragma: no cover
+    import stdnum_verif_hooks as _vh
+
+
 def _get_cc_module(cc):
     """Get the VAT number module based on the country code."""
     # Greece uses a "wrong" country code, special case for Northern Ireland
     cc = cc.lower().replace('el', 'gr').replace('xi', 'gb')
     if not re.match(r'^[a-z]{2}$', cc):
         raise InvalidFormat()
+    if _vh: _vh.event('vatin', 'enter', cc)  # pragma: no cover
     if cc not in _country_modules:
+        if _vh: _vh.event('vatin', 'miss', cc)  # pragma: no cover
         _country_modules[cc] = get_cc_module(cc, 'vat')
+        if _vh: _vh.event('vatin', 'store', cc, _country_modules[cc])  # pragma: no cover
+    if _vh: _vh.event('vatin', 'ret', cc, _country_modules[cc])  # pragma: no cover
     if not _country_modules[cc]:
         raise InvalidComponent()  # unknown/unsupported country code
     return _country_modules[cc]
